@@ -98,7 +98,7 @@ ASSUMPTIONS = [
     "float rounding model for bounds(): fl(x)=x(1+d), |d|<=2^-53, monotone, exact on integers up to 2^53; round() = round-half-even; total_docs <= 10^12, clients <= 2^20",
 ]
 NOT_DECIDED = [
-    "readers, offset tables, bulk/batch cutting, conflicting ids (functions not yet under contract in this revision)",
+    "Slice / IndexDataReader bulk and batch cutting, PartitionBulkIndexParamSource corpus partition (not under contract)", "text-mode tell() == byte offset (bounded only)",
     "order in which co-located clients call params()",
 ]
 TRUSTED = []
